@@ -438,8 +438,16 @@ fn run_case(userun: bool, seed: u64, ops: &[Op]) -> String {
                 // the gate task: logs its start, then serves the coordinator's closures on the arbiter thread
                 let (gtx, grx) = mpsc::channel::<AgentMsg>();
                 let sh2 = sh.clone();
+                let sys_thread = side.thread;
                 let fut = async move {
                     record(&sh2, k, pos);
+                    // identity: seen from a worker arbiter's thread, `System::current().arbiter()` is the System's own (initial)
+                    // arbiter — what is sent through it runs on the system thread (if that arbiter is gone, nothing runs)
+                    let _ = System::current().arbiter().spawn_fn(move || {
+                        if thread::current().id() != sys_thread {
+                            IDENT_BAD.store(true, std::sync::atomic::Ordering::SeqCst);
+                        }
+                    });
                     while let Ok((job, ack)) = grx.recv() {
                         job();
                         let _ = ack.send(());
@@ -704,7 +712,7 @@ fn run_case(userun: bool, seed: u64, ops: &[Op]) -> String {
     }
     if IDENT_BAD.load(std::sync::atomic::Ordering::SeqCst) {
         // reported instead of a log: the monitor's language has no word for it
-        return "IDENT Arbiter::current() on the system thread is not the arbiter of System::current()".to_string();
+        return "IDENT Arbiter::current() on the system thread is not the arbiter of System::current(), or System::current().arbiter() seen from a worker arbiter is not the System's own arbiter".to_string();
     }
     let mut out = format!("ret={};ops={}", ret_s, res);
     for (k, l) in per.iter().enumerate() {
